@@ -32,7 +32,7 @@ ASSUMPTIONS = [
 ]
 BUDGET = {
     "quick": {"examples": 500, "wall_s": 100, "shards": 4},
-    "thorough": {"examples": 6000, "wall_s": 1200, "shards": 16},
+    "thorough": {"examples": 12000, "wall_s": 1500, "shards": 16},
 }
 
 CASE_TIMEOUT_S = 25
@@ -400,7 +400,7 @@ def extra_phases(tier, seed, shard, nshards, stats, run_one):
         os.makedirs(out)
         for f in files:
             shutil.copy(f, corpus)
-        secs = int(os.environ.get("VERIF_FUZZ_S", "240"))
+        secs = int(os.environ.get("VERIF_FUZZ_S", "420"))
         env = dict(os.environ)
         p = subprocess.run([sys.executable, os.path.join(VERIF, "vlib", "fuzz14.py"), corpus, out,
                             f"-max_total_time={secs}", f"-seed={seed * 1000 + shard + 1}", "-max_len=512",
